@@ -5,9 +5,14 @@
    the wrapped sink (metric, outcome); [handler] says whether with_error_handler was used.
    Vocabulary as in Props/C08.v;  errs d = [(m, e) | (m, SErr e) in d], in order. *)
 Require Import Cadence.Base.Prelude.
+Require Import Cadence.Model.Writer.
+Require Import Cadence.Proofs.WriterBase.
+Require Import Cadence.Proofs.WriterRun.
+Require Import Cadence.Proofs.WriterThms.
 Require Import Cadence.Model.Queue.
 Require Import Cadence.Proofs.QueueInv.
 Require Import Cadence.Proofs.QueueLive.
+Require Import Cadence.Proofs.StackProofs.
 
 (* in every state of every history: with a handler, the handler log is exactly the failures of
    the wrapped sink, in order, once each, with that very error — and nothing for a metric the
@@ -73,6 +78,25 @@ Theorem c16_eventually : forall cap evs s rs outs fuel,
   let s' := quiesce true fuel s outs in
   q_handled s' = q_handled s ++ errs (answers (pending_ids s) outs).
 Proof. exact handler_eventually. Qed.
+
+(* end to end with a BUFFERED wrapped sink (client -> QueuingMetricSink -> buffered sink over a
+   socket that may refuse any write): when the outcomes the worker saw are the writer's results for
+   the delivered metrics, the queue's handler has been given exactly the writer's error results -
+   each once, in order, with the identity of its metric -, every such error is one the socket
+   returned during that very emit, and the writer's framing (C05) and ledger (C07) hold for what the
+   worker was told was accepted *)
+Theorem c16_stack : forall cap evs s rs c e script pay xs w,
+  Queue.run true (init_q cap true) evs = Some (s, rs) ->
+  Writer.run_from (init c e script) 0 (delivered_ops pay (q_delivered s)) = (xs, w) ->
+  map snd (q_delivered s) = map sout_of xs ->
+  q_handled s = werrs (map fst (q_delivered s)) xs /\
+  (forall i er, nth_error xs i = Some (OErr er) ->
+     exists a, In a (lg w) /\ a_op a = i /\ a_out a = WErr er) /\
+  Forall (frame_ok c e) (lg w) /\
+  filter (nzb e) (sentL (lg w) ++ bids w) =
+    filter (nzb e) (fit_ids c e (acked 0 (delivered_ops pay (q_delivered s)) xs)) /\
+  sentA (lg w) = big_ids c e (acked 0 (delivered_ops pay (q_delivered s)) xs).
+Proof. exact stack_faults. Qed.
 
 (* non-vacuity: Ok / Err / panic patterns with and without a handler *)
 Example c16_witness :
